@@ -2,17 +2,16 @@
 From Coq Require Import List NArith Bool Lia Arith.
 From SNT Require Import Decoder.SgrRef.
 From SNT Require Import Base.Outcome Automata.DfaData Automata.Tokenizer Automata.TokenizerTheorems.
-From SNT Require Import Decoder.EvModel Decoder.Printer Decoder.EvProd Decoder.EvProofs Decoder.EvFamilies Decoder.EvFamilies2 Decoder.EvXterm Decoder.EvFaces Decoder.EvColor Decoder.EvKitty.
+From SNT Require Import Decoder.EvModel Decoder.Printer Decoder.EvProd Decoder.EvProofs Decoder.EvFamilies Decoder.EvFamilies2 Decoder.EvXterm Decoder.EvFaces Decoder.EvColor Decoder.EvKitty Decoder.EvTermcap.
 From SNT Require Import Gen.ProdDFA Gen.C04Keys.
 Import ListNotations.
 Local Open Scope N_scope.
 
-(* the families whose single-report theorem is proved for all parameter values; the remaining
-   one (XTGETTCAP replies) is covered by the
-   correspondence run only *)
+(* every family has its single-report theorem; an SGR sequence denotes a modification record that
+   is characterised by its meaning, so it has its own statement (sgr_event_decode) *)
 Definition proved_family (r : report) : bool :=
   match r with
-  | RTermcapOk _ _ | RTermcapFail _ _ | RSgr _ => false
+  | RSgr _ => false
   | _ => true
   end.
 
@@ -32,6 +31,8 @@ Proof.
   - apply single_da, Hwf.
   - apply single_kimg, Hwf.
   - apply single_color, Hwf.
+  - apply single_tc_ok, Hwf.
+  - apply single_tc_fail, Hwf.
   - apply single_paste, Hwf.
   - apply single_facerep, Hwf.
 Qed.
